@@ -245,6 +245,49 @@ func ruleLoopSel(c *Ctx) {
 					}
 				}
 			})
+			if !found && !isNil {
+				// inductively: every store of a non-nil context installs the polling loop and only the nil
+				// store removes it, so a state whose context is already non-nil runs the polling loop —
+				// a store may skip the installation on exactly the paths that have found ctx non-nil
+				var loopStores []ssa.Instruction
+				allInstrs(fn, func(x ssa.Instruction) {
+					if s2, ok := isFieldStore(x, mlF); ok && s2.Addr.(*ssa.FieldAddr).X == base {
+						if f, ok := s2.Val.(*ssa.Function); ok && f == want {
+							loopStores = append(loopStores, x)
+						}
+					}
+				})
+				if len(loopStores) > 0 {
+					okAll := true
+					for _, pr := range g.Preds(in.Block()) {
+						_ = pr
+					}
+					// every path to the store either passes a loop store or carries "ctx != nil"
+					okAll = g.holdsOnAllPathsOr(in.Block(), func(cd Cond) bool {
+						b, ok := cd.V.(*ssa.BinOp)
+						if !ok {
+							return false
+						}
+						isNilC := func(v ssa.Value) bool { k, ok := v.(*ssa.Const); return ok && k.IsNil() }
+						bx, lx := loadsField(b.X, ctxF)
+						by, ly := loadsField(b.Y, ctxF)
+						if !((lx && bx == base && isNilC(b.Y)) || (ly && by == base && isNilC(b.X))) {
+							return false
+						}
+						return (b.Op == token.NEQ && cd.Sense) || (b.Op == token.EQL && !cd.Sense)
+					}, func(blk *ssa.BasicBlock) bool {
+						for _, ls := range loopStores {
+							if ls.Block() == blk {
+								return true
+							}
+						}
+						return false
+					}, 0)
+					if okAll {
+						found = true
+					}
+				}
+			}
 			what := "context"
 			if isNil {
 				what = "nil context"
@@ -459,17 +502,26 @@ func walkCtxNonNil(g *PCFG, ctxF *types.Var, fn *ssa.Function, barrier func(ssa.
 // for the next generation (F48, F72).
 func ruleThreadCtx(c *Ctx) {
 	const R = "R11-threadctx"
-	c.floor(R, 3)
+	c.floor(R, 4)
 	p := c.P
 	fn := c.need(R, "lua", "(*LState).NewThread")
 	if fn == nil {
 		return
 	}
 	ctxF := p.Field("lua", "LState", "ctx")
-	parF := p.Field("lua", "LState", "ctxParent")
+	ownerF := p.Field("lua", "LState", "ctxOwner")
+	childF := p.Field("lua", "LState", "ctxChildren")
+	cancelF := p.Field("lua", "LState", "ctxCancelFn")
+	if ctxF == nil || ownerF == nil || childF == nil || cancelF == nil {
+		c.und(R, "fields", "-", "LState.ctx / ctxOwner / ctxChildren / ctxCancelFn not found")
+		return
+	}
+	recv := fn.Params[0]
+	// (1) lineage: the new context is derived from the creating thread's own context — "no further
+	// instruction of that state or of any coroutine created from it completes" once that context is done,
+	// whichever of the two kinds it is (attached with SetContext, or handed out with a cancel function)
 	n, okc := 0, true
 	var site ssa.Instruction = fn.Blocks[0].Instrs[0]
-	var parentVal ssa.Value
 	allInstrs(fn, func(in ssa.Instruction) {
 		pk, name, ok := stdCall(in)
 		if !ok || pk != "context" || name != "WithCancel" {
@@ -477,52 +529,64 @@ func ruleThreadCtx(c *Ctx) {
 		}
 		n++
 		site = in
-		parent := in.(*ssa.Call).Call.Args[0]
-		parentVal = parent
-		fromPar, fromCtx := false, false
-		var scan func(v ssa.Value, d int)
-		scan = func(v ssa.Value, d int) {
-			if d > 4 {
-				return
-			}
-			if base, ok := loadsField(v, parF); ok {
-				if _, isRecv := base.(*ssa.Parameter); isRecv {
-					fromPar = true
-				}
-			}
-			if base, ok := loadsField(v, ctxF); ok {
-				if _, isRecv := base.(*ssa.Parameter); isRecv {
-					fromCtx = true
-				}
-			}
-			if ph, ok := v.(*ssa.Phi); ok {
-				for _, e := range ph.Edges {
-					scan(e, d+1)
-				}
-			}
-		}
-		scan(parent, 0)
-		if !fromPar || !fromCtx {
+		base, isLoad := loadsField(in.(*ssa.Call).Call.Args[0], ctxF)
+		if !isLoad || base != ssa.Value(recv) {
 			okc = false
 		}
 	})
-	c.check(n > 0 && okc, R, "NewThread:context-from-the-creators-base", p.ipos(site), "the parent of the new thread's context is the creator's ctxParent when it has one, its attached context otherwise", "NewThread derives the new thread's context from the creating thread's own derived context (or from some other thread's): a coroutine created inside another coroutine is cancelled ('context canceled') as soon as its creator finishes although the attached context is live, or a context attached to a thread does not govern the coroutines created from it")
-	recorded := false
+	c.check(n > 0 && okc, R, "NewThread:context-derived-from-the-creators-own", p.ipos(site), "the parent of the new thread's context is the creating thread's context", "NewThread derives the new thread's context from something other than the creating thread's own context (the main thread's, or what the creator's was derived from): cancelling the creator's context — the cancel function NewThread returned for it, or a context attached to it with SetContext — does not stop the coroutines it created")
+	// (2) the creator is recorded and its count of derived threads goes up on that path
+	rec, cnt := false, false
 	allInstrs(fn, func(in ssa.Instruction) {
-		if st, ok := isFieldStore(in, parF); ok && parentVal != nil && st.Val == parentVal {
-			recorded = true
+		if st, ok := isFieldStore(in, ownerF); ok && st.Val == ssa.Value(recv) {
+			rec = true
+		}
+		if st, ok := isFieldStore(in, childF); ok && st.Addr.(*ssa.FieldAddr).X == ssa.Value(recv) {
+			if b, ok := st.Val.(*ssa.BinOp); ok && b.Op == token.ADD {
+				if k, ok := constInt(b.Y); ok && k == 1 {
+					cnt = true
+				}
+			}
 		}
 	})
-	c.check(recorded, R, "NewThread:records-the-base", p.ipos(site), "the new thread remembers what its context was derived from", "NewThread does not record the context it derived the new thread's context from: the next generation of coroutines hangs under a context that is cancelled when this thread finishes")
-	if sc := c.need(R, "lua", "(*LState).SetContext"); sc != nil {
-		cleared := false
-		allInstrs(sc, func(in ssa.Instruction) {
-			if st, ok := isFieldStore(in, parF); ok {
-				if k, ok := st.Val.(*ssa.Const); ok && k.IsNil() {
-					cleared = true
+	c.check(rec && cnt, R, "NewThread:creator-recorded-and-counted", p.ipos(site), "ctxOwner is the creator and the creator's ctxChildren is incremented", "NewThread does not record the creating thread as the owner of the new thread's context, or does not count the new thread among the creator's derived threads: the creator's context is released when the creator finishes, and a coroutine that outlives its creator fails with 'context canceled' although the attached context is live")
+	// (3) kill releases a derived context only when no live thread was derived from it, and hands the
+	// release on to the owner
+	if kf := c.need(R, "lua", "(*LState).kill"); kf != nil {
+		g := p.G(kf)
+		guarded, found, passesOn := true, false, false
+		allInstrs(kf, func(in ssa.Instruction) {
+			cl, ok := in.(*ssa.Call)
+			if ok && cl.Call.StaticCallee() == nil && !cl.Call.IsInvoke() {
+				// a call through a function value: the cancel function
+				if _, isLoad := loadsField(cl.Call.Value, cancelF); isLoad {
+					found = true
+					zero := false
+					for _, cd := range g.expandAnd(g.CondsAtInstr(cl)) {
+						if b, ok := cd.V.(*ssa.BinOp); ok {
+							_, l1 := loadsField(b.X, childF)
+							_, l2 := loadsField(b.Y, childF)
+							k1, c1 := constInt(b.X)
+							k2, c2 := constInt(b.Y)
+							if (l1 && c2 && k2 == 0 || l2 && c1 && k1 == 0) && ((b.Op == token.EQL && cd.Sense) || (b.Op == token.NEQ && !cd.Sense) || (b.Op == token.LEQ && cd.Sense && l1) || (b.Op == token.GTR && !cd.Sense && l1)) {
+								zero = true
+							}
+						}
+					}
+					if !zero {
+						guarded = false
+					}
+				}
+			}
+			if st, ok := isFieldStore(in, childF); ok {
+				if b, ok := st.Val.(*ssa.BinOp); ok && b.Op == token.SUB {
+					if k, ok := constInt(b.Y); ok && k == 1 {
+						passesOn = true
+					}
 				}
 			}
 		})
-		c.check(cleared, R, "SetContext:attached-context-is-its-own-base", p.pos(sc.Pos()), "SetContext clears ctxParent", "SetContext leaves ctxParent set: coroutines created afterwards derive from the old base, the newly attached context does not govern them")
+		c.check(found && guarded, R, "kill:releases-only-a-context-without-live-descendants", p.pos(kf.Pos()), "the cancel function is called under ctxChildren == 0", "kill cancels a thread's derived context although threads derived from it may still be alive: a coroutine created inside another coroutine fails with 'context canceled' as soon as its creator has finished")
+		c.check(passesOn, R, "kill:release-is-handed-to-the-owner", p.pos(kf.Pos()), "the owner's ctxChildren is decremented when a derived context is released", "kill never takes a released thread off its owner's count: the owner's derived context is never released (one registered child context per finished coroutine stays in the attached context for ever)")
 	}
 }
